@@ -1,5 +1,6 @@
 import BSModel.Proofs.Render
 import BSModel.Proofs.Reparse
+import BSModel.Proofs.ReparseIdem
 import BSModel.Gen.Render
 /-! # C05 — serialising and re-parsing gives the same tree back
 
@@ -219,21 +220,8 @@ example : let ds := [demo]
     normaliseL livePCfg minimalHtml (normaliseL livePCfg minimalHtml ds) = normaliseL livePCfg minimalHtml ds := by decide
 
 /-- "whitespace-only runs normalise once": the whitespace rule of `endData` is idempotent, for every configuration -/
-theorem wsRule_idem (p : PCfg) (pres : Bool) (s : PStr) : wsRule p pres (wsRule p pres s) = wsRule p pres s := by
-  have h1 : wsRule p pres [10] = [10] := by
-    unfold wsRule; cases pres <;> simp
-  have h2 : wsRule p pres [32] = [32] := by
-    unfold wsRule; cases pres <;> simp
-  by_cases hc : (!pres && s.all fun c => p.asciiSpaces.contains c) = true
-  · have hs : wsRule p pres s = if s.contains 10 then [10] else [32] := by
-      unfold wsRule; rw [if_pos hc]
-    rw [hs]
-    split
-    · exact h1
-    · exact h2
-  · have hs : wsRule p pres s = s := by
-      unfold wsRule; rw [if_neg hc]
-    rw [hs, hs]
+theorem wsRule_idem (p : PCfg) (pres : Bool) (s : PStr) : wsRule p pres (wsRule p pres s) = wsRule p pres s :=
+  BS.Render.wsRule_idem p pres s
 
 example : wsRule livePCfg false (ofS " \t\n ") = ofS "\n" ∧ wsRule livePCfg true (ofS " \t\n ") = ofS " \t\n " ∧
     wsRule livePCfg false [] = ofS " " := by decide
@@ -251,10 +239,55 @@ theorem txt_chunking (p : PCfg) (ctx : Ctx) (b : List PStr) (x y : PStr) :
   | nil => simp [txt, concatL]
   | cons a b => simp only [List.cons_append, txt]; have := hc (a :: b); simp only [List.cons_append] at this; rw [this]
 
-/-! Stated, not proved (`normalise_idem`): for every forest without a `Doctype` node, for every configuration whose
-    string containers are text classes, `normaliseL p f (normaliseL p f ds) = normaliseL p f ds`
-    (needs: the normal form has no two adjacent text nodes; `wsRule_idem`; `sortAttrs` is idempotent;
-    `splitWs (joinSp (splitWs v)) = splitWs v`). With a `Doctype` it is false (`doctype_text_not_fixpoint`).
-    The executable statement is evaluated on every case of the correspondence run instead. -/
+/-! ## 6. idempotence of the normal form -/
+
+/-- `DoctypeStable`: no doctype of the forest is followed by text that is not ASCII whitespace, and none stands inside
+    a preserve-whitespace element (`<pre>`, `<textarea>`) — exactly the inputs outside known finding
+    `C05-doctype-newline-accumulates`. Explicit and decidable (`dstableL`, Proofs/ReparseIdem.lean). -/
+abbrev DoctypeStable (p : PCfg) (ds : List Node) : Prop := dstableL p (ctxOf p [rootFrame]) false ds = true
+
+/-- the attribute normalisation is idempotent at every element (decidable) -/
+abbrev AttrStable (p : PCfg) (f : Fmt) (ds : List Node) : Prop := attrStableL p f ds = true
+
+/-- **A second round trip changes nothing.** For every forest — representable or not —, every formatter and every
+    builder configuration whose string containers are text classes and whose ASCII_SPACES contain the newline: if the
+    forest is `DoctypeStable`, the documented normal form is a fixpoint of the normalisation. Proof: the second
+    normalisation is run in lockstep with the first (`reabsorbL`): the text node the first pass flushes is taken up
+    unchanged by the second, special strings and elements are re-read as themselves, and the newline a doctype
+    leaves behind meets exactly the `"\n"` it produced the first time. Without `DoctypeStable` the statement is false
+    (`doctype_text_not_fixpoint`). -/
+theorem normalise_idem (p : PCfg) (f : Fmt) (hc : contOK p = true) (h10 : p.asciiSpaces.contains 10 = true)
+    (ds : List Node) (hs : DoctypeStable p ds) (ha : AttrStable p f ds) :
+    normaliseL p f (normaliseL p f ds) = normaliseL p f ds :=
+  normaliseL_idem p f hc h10 ds hs ha
+
+/-- the live configuration satisfies the two hypotheses on the configuration -/
+theorem live_config_ok : contOK livePCfg = true ∧ livePCfg.asciiSpaces.contains 10 = true := by decide
+
+/-- doctype followed by whitespace and an element, text to merge, a `<pre>`, special strings, multi-valued attribute -/
+def demo2 : List Node :=
+  [.str .doctype (ofS "html"), .str .navigable (ofS " "), .str .navigable (ofS "\t"),
+   .tag (tg "p" [(ofS "class", .str (ofS " a  b ")), (ofS "k", .none)])
+     [.str .navigable (ofS "a"), .str .navigable (ofS "b"), .tag (tg "rt") [.str .navigable (ofS "r")],
+      .tag (tg "pre") [.str .navigable (ofS " \n ")], .str .comment (ofS " "), .str .navigable (ofS " ")],
+   .str .xmlpi (ofS "x y"), .str .declaration (ofS "if IE")]
+
+example : DoctypeStable livePCfg demo2 ∧ AttrStable livePCfg minimalHtml demo2 ∧ Representable livePCfg minimalHtml demo2 := by
+  decide
+example : normaliseL livePCfg minimalHtml (normaliseL livePCfg minimalHtml demo2) = normaliseL livePCfg minimalHtml demo2 :=
+  normalise_idem _ _ live_config_ok.1 live_config_ok.2 _ (by decide) (by decide)
+/-- the witness of the refutation is excluded by `DoctypeStable`, and only by it -/
+example : ¬ DoctypeStable livePCfg [.str .doctype (ofS "html"), .str .navigable (ofS "x")] ∧
+    AttrStable livePCfg minimalHtml [.str .doctype (ofS "html"), .str .navigable (ofS "x")] := by decide
+
+/-- **Parse-then-render is idempotent**, at the event level: for every representable, doctype-stable forest whose
+    normal form is representable again, the second re-parse builds the same forest as the first. -/
+theorem second_roundtrip_fixpoint (p : PCfg) (f : Fmt) (hc : contOK p = true) (h10 : p.asciiSpaces.contains 10 = true)
+    (ds : List Node) (h : Representable p f ds) (h2 : Representable p f (normaliseL p f ds))
+    (hs : DoctypeStable p ds) (ha : AttrStable p f ds) :
+    build p (emitRL f (build p (emitRL f ds))) = build p (emitRL f ds) :=
+  (second_roundtrip_fixpoint_iff p f ds h h2).mpr (normalise_idem p f hc h10 ds hs ha)
+
+example : Representable livePCfg minimalHtml (normaliseL livePCfg minimalHtml demo2) := by decide
 
 end BS.Props.C05
